@@ -517,10 +517,13 @@ func runSim(o *Out, sp *simSpec, timeout time.Duration) {
 
 func runC20(o *Out, rng *Rng, tier string, replay string) {
 	nProto, nStress, nSim := 40, 4, 14
+	nReal, nRealStress := 24, 3
 	if tier == "thorough" {
 		nProto, nStress, nSim = 600, 60, 200
+		nReal, nRealStress = 400, 40
 	} else if tier == "search" {
 		nProto, nStress, nSim = 150, 12, 40
+		nReal, nRealStress = 100, 8
 	}
 	o.sum.Rule = "two streams. (A) case = a history of the traveller-bot protocol of pkg/model driven against the real flap.Engine on LevelDB: 2-5 travellers, every day the update, then promise planning exactly as promisesPlanner does it (propose + make for flights (start of day, +1 s) and (end day + 86398 s, + 86399 s), same distance both ways, no overlap with promised trips), then the day's check-ins at the flight's start time (outbound on its day, inbound only after an accepted outbound), debit only after 0-8 trial days, Daily Total decaying, linear and polynomial predictors with correction options, fly probability 5-90 % (stress histories: 100-200 days, 50-90 %, horizon up to 120 days so that ten-promise books are the norm); every call and result compared with the Coq engine model (kept promise, book, mid-trip, grounded count, share); monitors: no check-in of a promised trip refused, nobody credited and no balance changed in the trial. (B) the real model.NewEngine / Build / Run in a child process on a generated world (2-5 countries, 2-30 airports, random routes) with every documented optional setting present, absent or zero at random, backfill threads 0-16, planning threads absent/0/1/2/4/7, fresh folder, second run and second build+run on the same folder, under a timeout; monitors: exit status, crash, time-out, zero grounded in the trial rows of the summary read back from the model table, zero refused percentages in bands.csv with promises on (and within the trial otherwise). non-trivial (A) = promises were made and used; distinct by script hash"
 	wd := filepath.Join(o.dir, "dbs")
@@ -533,6 +536,20 @@ func runC20(o *Out, rng *Rng, tier string, replay string) {
 		}
 		for _, k := range []string{"c20_promises_made", "c20_checkins_accepted", "c20_refused", "c20_trips_cancelled"} {
 			o.CountN(k, s.stat[k])
+		}
+		o.AddCase(List(s.coq), s.stat["c20_promises_made"] > 3 && s.stat["c20_checkins_accepted"] > 3, s.ops)
+		s.close()
+	}
+	// (A') the same protocol run by the real planner code of pkg/model
+	for c := 0; c < nReal+nRealStress; c++ {
+		s := genBotReal(rng.Fork(), wd, c >= nReal)
+		for _, f := range s.fails {
+			if f.Property == "C20" {
+				o.Fail(f)
+			}
+		}
+		for _, k := range []string{"c20_promises_made", "c20_checkins_accepted", "c20_refused", "c20_trips_cancelled", "c20_real_prepare"} {
+			o.CountN("real_"+k, s.stat[k])
 		}
 		o.AddCase(List(s.coq), s.stat["c20_promises_made"] > 3 && s.stat["c20_checkins_accepted"] > 3, s.ops)
 		s.close()
